@@ -193,7 +193,7 @@ def decide(prop: str, tier: str, seed: int) -> int:
         log(f"[{prop}] widening the search for a failing input")
         try:
             searcher = getattr(mod, "search", None)
-            wctx = Ctx(prop, "thorough" if tier == "quick" else tier, seed, widen=4)
+            wctx = Ctx(prop, tier, seed + 1, widen=3)
             res2 = searcher(wctx, broken) if searcher else mod.correspond(wctx)
             wctx.cleanup()
             for f in res2.failures:
